@@ -127,3 +127,8 @@ Theorem C11_pairs_strongly_sorted : forall rs, NoDup (map res_key rs) -> forall 
     exists ls, po_pairs (find_pairs rs order) = map (pair_of rs) ls /\ StronglySorted (fun x y => pair_ltb rs y x = false) ls.
 Proof. exact pairs_strongly_sorted. Qed.
 Print Assumptions C11_pairs_strongly_sorted.
+
+(* pin: the library orders residues by the tuple (model, chain, number, insertion code or a blank) - what res_ltb models *)
+Lemma C11_pin_residue_order : res_order_as_modelled = true.
+Proof. reflexivity. Qed.
+Print Assumptions C11_pin_residue_order.
